@@ -178,10 +178,16 @@ func init() { //nolint:gochecknoinits
 			for i := 0; i < n; i++ {
 				out = append(out, vfGenStallSpec(i, seed))
 			}
+			out = append(out, vfGenGateSpecs(tier, seed, race)...)
 
 			return out
 		},
 		run: func(t *testing.T, spec *vfSpec, res *vfRes) {
+			if spec.Kind == "bw-probe-reset" {
+				vfRunGateProbe(t, spec, res)
+
+				return
+			}
 			out := vfRunTransfer(t, spec, res, vfXferOpts{mon: vfMonDefault(spec), hsProp: "C04"})
 			vfNoteWrap(spec, res, out.mon)
 			res.res.Nontrivial = res.has("T3") && res.has("outstanding-at-heal")
